@@ -9,6 +9,8 @@
 (*      fresh[e] = the object's result (all keys) is bit-for-bit that of a fresh   *)
 (*      object given only the calls since the last dohist (a relation between two  *)
 (*      implementation outputs, compared by the harness).                          *)
+(*   {"id": k, "kind": "scale", "sc": <scale case>, "obs": [<projection>, ...],     *)
+(*    "same": BOOLEAN}   (Hist.tla: HSFailing)                                     *)
 (* The representation of the data argument, the entry point and the scalar kinds   *)
 (* are carried in the case but no clause mentions them: no value depends on them.  *)
 (* Rejected records are printed with the names of the failing clauses (history:    *)
@@ -40,7 +42,7 @@ FailingCase(r) ==
     UNION {Failing(r.c, r.obs[k]) : k \in DOMAIN r.obs} \cup
     (IF ObsAgree(r.obs) THEN {} ELSE {"engines_differ"})
 
-StepNames == <<"1", "2", "3", "4", "5", "6", "7", "8">>
+StepNames == <<"1", "2", "3", "4", "5", "6", "7", "8", "9", "10", "11", "12", "13", "14", "15", "16", "17", "18", "19", "20">>
 FailingStep(h, k, s) ==
     UNION {HOStepFailing(h, k, s.obs[e]) : e \in DOMAIN s.obs} \cup
     (IF ObsAgree(s.obs) THEN {} ELSE {"engines_differ"}) \cup
@@ -49,7 +51,13 @@ FailingStep(h, k, s) ==
 FailingHistory(r) ==
     UNION {{StepNames[k] \o ":" \o cl : cl \in FailingStep(r.h, k, r.steps[k])} : k \in DOMAIN r.steps}
 
-FailingRec(r) == IF r.kind = "history" THEN FailingHistory(r) ELSE FailingCase(r)
+\* scale cases: every engine's (projected) result is judged through the law; same = the two engines returned
+\* bit-for-bit identical hist and rev (a relation between two implementation outputs, evaluated by the harness)
+FailingScale(r) ==
+    UNION {HSFailing(r.sc, r.obs[e]) : e \in DOMAIN r.obs} \cup (IF r.same THEN {} ELSE {"engines_differ"})
+
+FailingRec(r) == IF r.kind = "history" THEN FailingHistory(r)
+                 ELSE IF r.kind = "scale" THEN FailingScale(r) ELSE FailingCase(r)
 
 Check == tid > 0 =>
     LET r == Traces[tid]  f == FailingRec(r)
